@@ -107,6 +107,18 @@ func loadImpl(a map[string]any) (res any) {
 	}
 	out["canon"] = canonOf(md)
 	out["sigs"] = sigsOf(md)
+	if mb, ok := md.(*intoto.Metablock); ok {
+		func() {
+			defer func() {
+				if r := recover(); r != nil {
+					out["valid"] = "panic"
+				}
+			}()
+			out["valid"] = intoto.ValidateMetablock(*mb) == nil
+		}()
+	} else {
+		out["valid"] = nil
+	}
 	// Dump -> LoadMetadata
 	p2 := filepath.Join(dir, "rt.json")
 	if err := md.Dump(p2); err != nil {
